@@ -1,5 +1,6 @@
 import PsiProofs.Helper.C03_Policy
-/-! Random queue: every trial is the oracle's pick among the stimuli not yet satisfied. -/
+/-! FIFO and Random queues (a key leaves the ordering when its counter reaches 0): the ordering is
+always the list of stimuli not yet satisfied; FIFO takes its head, Random the oracle's pick. -/
 namespace Psi.Queue
 
 /-- stimuli (in insertion order) presented fewer times than requested, given the trials `P` so far -/
@@ -41,21 +42,16 @@ theorem unsatList_snoc (n : Nat) (req : Nat → Int) (P : List Nat) (k : Nat) :
     · have : x ≠ k := fun h' => hx h'.symm
       simp [hx, this]
 
-/-- Random policy, `n` stimuli with requested counts `req`, oracle stream `D0` at load time,
-`m` draws still guaranteed. -/
-structure RandInv (n : Nat) (req : Nat → Int) (D0 : List Nat) (m : Nat) (v : PView) : Prop where
+/-- What FIFO and Random share: the ordering is the list of unsatisfied stimuli. -/
+structure EraseCore (n : Nat) (req : Nat → Int) (v : PView) : Prop where
   base : Base n req v
-  kind : v.kind = .random
+  kind : v.kind = .fifo ∨ v.kind = .random
   ord : v.ordering = unsatList n req v.keys
   nonneg : ∀ k, k < n → 0 ≤ trv v.data k
-  draws : v.draws = D0.drop v.keys.length
-  budget : m ≤ v.draws.length
-  pick : ∀ j (h : j < v.keys.length), ∃ d, D0[j]? = some d ∧
-    (unsatList n req (v.keys.take j))[d % (unsatList n req (v.keys.take j)).length]? = some v.keys[j]
 
-theorem RandInv_init {s : QState} (h : Loaded s) (hk : s.kind = .random) :
-    RandInv s.data.length (fun k => trialsOf s k) s.draws s.draws.length (view s) := by
-  refine ⟨Base_init h, hk, ?_, ?_, by simp [view, h.added], Nat.le_refl _, ?_⟩
+theorem EraseCore_init {s : QState} (h : Loaded s) (hk : s.kind = .fifo ∨ s.kind = .random) :
+    EraseCore s.data.length (fun k => trialsOf s k) (view s) := by
+  refine ⟨Base_init h, hk, ?_, ?_⟩
   · simp only [view, h.ordering, h.added, List.map_nil, unsatList, List.count_nil]
     symm
     rw [List.filter_eq_self]
@@ -63,11 +59,124 @@ theorem RandInv_init {s : QState} (h : Loaded s) (hk : s.kind = .random) :
     have := h.trials (List.mem_range.mp hk')
     simp; omega
   · intro k hk'; have := h.trials hk'; rw [trialsOf_eq] at this; simp only [view]; omega
-  · intro j hj; simp [view, h.added] at hj
+
+/-- one trial of a key `k` of the ordering, whatever way `next_key` chose it -/
+theorem EraseCore_after {n : Nat} {req : Nat → Int} {s sa : QState} {k : Nat}
+    (hi : EraseCore n req (view s)) (hkey : nextKey s = .ok (some (k, sa))) (hmem : k ∈ s.ordering) :
+    ∃ s1, nextTrial s = .ok (some s1) ∧ EraseCore n req (view s1) ∧
+      (view s1).keys = (view s).keys ++ [k] ∧ (view s1).draws = sa.draws ∧ (view s1).kind = s.kind := by
+  have hlen : s.data.length = n := hi.base.len
+  have hkind : s.kind = .fifo ∨ s.kind = .random := hi.kind
+  have hord : s.ordering = unsatList n req (view s).keys := hi.ord
+  have f1 := nextKey_frame hkey
+  have hsak : sa.kind = s.kind := by rw [f1]
+  have hsao : sa.ordering = s.ordering := by rw [f1]
+  have hsad : sa.data = s.data := by rw [f1]
+  have hmem' := hmem
+  rw [hord, mem_unsatList] at hmem'
+  obtain ⟨hkl, hunsat⟩ := hmem'
+  have hdec := decrementKey_erase (s := sa) (by rw [hsak]; exact hkind) (by rw [hsao]; exact hmem)
+  obtain ⟨s1, hs1, hv⟩ := nextTrial_ok hkey hdec (by rw [hlen]; exact hkl) hi.base.delays
+  refine ⟨s1, hs1, ?_, by rw [hv], by rw [hv], by rw [hv]; rfl⟩
+  have hb1 : Base n req (view s1) := Base_step hi.base hkl (by rw [hv]; rfl) (by rw [hv])
+  have hkeys : (view s1).keys = (view s).keys ++ [k] := by rw [hv]
+  have hdata : (view s1).data = dataStep s.data k := by rw [hv]
+  have hled := hi.base.led k hkl
+  simp only [view] at hled
+  refine ⟨hb1, by rw [hv]; exact hkind, ?_, ?_⟩
+  · have : (view s1).ordering =
+        if trv (setTrials s.data k (· - 1)) k ≤ 0 then s.ordering.erase k else s.ordering := by
+      rw [hv]; simp only [hsad, hsao]
+    rw [this, hkeys, unsatList_snoc, trv_setTrials _ _ _ (by rw [hlen]; exact hkl), hord]
+    simp only [if_true, view]
+    by_cases hc : trv s.data k - 1 ≤ 0
+    · have : ¬ ((((s.added.map (·.key)).count k : Nat) : Int) + 1 < req k) := by omega
+      simp only [hc, this, if_true, if_false]
+    · have : ((((s.added.map (·.key)).count k : Nat) : Int) + 1 < req k) := by omega
+      simp only [hc, this, if_true, if_false]
+  · intro k' hk'
+    rw [hdata, trv_dataStep _ _ _ (by rw [hlen]; exact hkl)]
+    have h0 := hi.nonneg k' hk'
+    simp only [view] at h0 hunsat
+    split
+    · rename_i h; subst h; omega
+    · exact h0
+
+/-- once the ordering is empty every stimulus was presented exactly as often as requested -/
+theorem EraseCore.exact {n : Nat} {req : Nat → Int} {v : PView} (hi : EraseCore n req v) :
+    (∀ k, k < n → ((v.keys.count k : Nat) : Int) ≤ req k) ∧
+    (v.ordering = [] → ∀ k, k < n → ((v.keys.count k : Nat) : Int) = req k) := by
+  refine ⟨?_, ?_⟩
+  · intro k hk
+    have := hi.nonneg k hk
+    rw [hi.base.led k hk] at this; omega
+  · intro ho k hk
+    have h0 := hi.nonneg k hk
+    rw [hi.base.led k hk] at h0
+    have : k ∉ unsatList n req v.keys := by rw [← hi.ord, ho]; simp
+    rw [mem_unsatList] at this
+    have : ¬ ((v.keys.count k : Nat) : Int) < req k := fun h => this ⟨hk, h⟩
+    omega
+
+/-! ### FIFO: the head of the unsatisfied list -/
+
+structure FifoNew (n : Nat) (req : Nat → Int) (v : PView) : Prop where
+  core : EraseCore n req v
+  kind : v.kind = .fifo
+  pick : ∀ j (h : j < v.keys.length), (unsatList n req (v.keys.take j)).head? = some v.keys[j]
+
+theorem FifoNew_init {s : QState} (h : Loaded s) (hk : s.kind = .fifo) :
+    FifoNew s.data.length (fun k => trialsOf s k) (view s) :=
+  ⟨EraseCore_init h (Or.inl hk), hk, by intro j hj; simp [view, h.added] at hj⟩
+
+theorem FifoNew_step {n : Nat} {req : Nat → Int} (s : QState) (hi : FifoNew n req (view s)) :
+    nextTrial s = .ok none ∨ ∃ s1, nextTrial s = .ok (some s1) ∧ FifoNew n req (view s1) := by
+  have hkind : s.kind = .fifo := hi.kind
+  have hord : s.ordering = unsatList n req (view s).keys := hi.core.ord
+  cases ho : s.ordering with
+  | nil =>
+    left
+    apply nextTrial_none_of
+    rw [nextKey_none_iff]
+    simp [Done, hkind, ho]
+  | cons k rest =>
+    right
+    have hkey : nextKey s = .ok (some (k, s)) := by simp [nextKey, hkind, ho]
+    obtain ⟨s1, hs1, hc1, hkeys, _, hk1⟩ := EraseCore_after hi.core hkey (by simp [ho])
+    refine ⟨s1, hs1, hc1, by rw [hk1]; exact hkind, ?_⟩
+    intro j hj
+    simp only [hkeys] at hj ⊢
+    rw [List.length_append] at hj
+    simp only [List.length_singleton] at hj
+    by_cases hjl : j < (view s).keys.length
+    · rw [List.getElem_append_left hjl, List.take_append_of_le_length (by omega)]
+      exact hi.pick j hjl
+    · have : j = (view s).keys.length := by omega
+      subst this
+      rw [List.getElem_append_right (Nat.le_refl _), List.take_append_of_le_length (Nat.le_refl _),
+        List.take_of_length_le (Nat.le_refl _), ← hord, ho]
+      simp
+
+/-! ### Random: the oracle's pick -/
+
+/-- Random policy, `n` stimuli with requested counts `req`, oracle stream `D0` at load time,
+`m` draws still guaranteed. -/
+structure RandInv (n : Nat) (req : Nat → Int) (D0 : List Nat) (m : Nat) (v : PView) : Prop where
+  core : EraseCore n req v
+  kind : v.kind = .random
+  draws : v.draws = D0.drop v.keys.length
+  budget : m ≤ v.draws.length
+  pick : ∀ j (h : j < v.keys.length), ∃ d, D0[j]? = some d ∧
+    (unsatList n req (v.keys.take j))[d % (unsatList n req (v.keys.take j)).length]? = some v.keys[j]
+
+theorem RandInv_init {s : QState} (h : Loaded s) (hk : s.kind = .random) :
+    RandInv s.data.length (fun k => trialsOf s k) s.draws s.draws.length (view s) :=
+  ⟨EraseCore_init h (Or.inr hk), hk, by simp [view, h.added], Nat.le_refl _,
+   by intro j hj; simp [view, h.added] at hj⟩
 
 theorem RandInv_mono {n : Nat} {req : Nat → Int} {D0 : List Nat} (m : Nat) (v : PView)
     (h : RandInv n req D0 (m + 1) v) : RandInv n req D0 m v :=
-  ⟨h.base, h.kind, h.ord, h.nonneg, h.draws, by have := h.budget; omega, h.pick⟩
+  ⟨h.core, h.kind, h.draws, by have := h.budget; omega, h.pick⟩
 
 theorem nextKey_random {s : QState} {d : Nat} {ds : List Nat} (hkind : s.kind = .random)
     (ho : s.ordering ≠ []) (hd : s.draws = d :: ds) :
@@ -83,7 +192,6 @@ theorem nextKey_random {s : QState} {d : Nat} {ds : List Nat} (hkind : s.kind = 
 theorem RandInv_step {n : Nat} {req : Nat → Int} {D0 : List Nat} (m : Nat) (s : QState)
     (hi : RandInv n req D0 (m + 1) (view s)) :
     nextTrial s = .ok none ∨ ∃ s1, nextTrial s = .ok (some s1) ∧ RandInv n req D0 m (view s1) := by
-  have hlen : s.data.length = n := hi.base.len
   have hkind : s.kind = .random := hi.kind
   by_cases ho : s.ordering = []
   · left
@@ -93,46 +201,18 @@ theorem RandInv_step {n : Nat} {req : Nat → Int} {D0 : List Nat} (m : Nat) (s 
   · right
     have hbud : m + 1 ≤ s.draws.length := hi.budget
     have hdr : s.draws = D0.drop (view s).keys.length := hi.draws
+    have hord : s.ordering = unsatList n req (view s).keys := hi.core.ord
     cases hds : s.draws with
     | nil => rw [hds] at hbud; simp at hbud
     | cons d ds =>
       obtain ⟨k, hget, hkey⟩ := nextKey_random hkind ho hds
-      have hord : s.ordering = unsatList n req (view s).keys := hi.ord
-      have hmem : k ∈ s.ordering := List.mem_of_getElem? hget
-      have hmem' := hmem
-      rw [hord, mem_unsatList] at hmem'
-      obtain ⟨hkl, hunsat⟩ := hmem'
-      have hdec := decrementKey_erase (s := { s with draws := ds }) (Or.inr hkind) hmem
-      obtain ⟨s1, hs1, hv⟩ := nextTrial_ok hkey hdec (by rw [hlen]; exact hkl) hi.base.delays
-      refine ⟨s1, hs1, ?_⟩
-      have hb1 : Base n req (view s1) := Base_step hi.base hkl (by rw [hv]; rfl) (by rw [hv])
-      have hkeys : (view s1).keys = (view s).keys ++ [k] := by rw [hv]
-      have hdata : (view s1).data = dataStep s.data k := by rw [hv]
-      have hled := hi.base.led k hkl
-      simp only [view] at hled
-      refine ⟨hb1, by rw [hv]; exact hkind, ?_, ?_, ?_, ?_, ?_⟩
-      · -- ordering = unsatisfied stimuli
-        have : (view s1).ordering =
-            if trv (setTrials s.data k (· - 1)) k ≤ 0 then s.ordering.erase k else s.ordering := by rw [hv]
-        rw [this, hkeys, unsatList_snoc, trv_setTrials _ _ _ (by rw [hlen]; exact hkl), hord]
-        simp only [if_true, view]
-        by_cases hc : trv s.data k - 1 ≤ 0
-        · have : ¬ ((((s.added.map (·.key)).count k : Nat) : Int) + 1 < req k) := by omega
-          simp only [hc, this, if_true, if_false]
-        · have : ((((s.added.map (·.key)).count k : Nat) : Int) + 1 < req k) := by omega
-          simp only [hc, this, if_true, if_false]
-      · intro k' hk'
-        rw [hdata, trv_dataStep _ _ _ (by rw [hlen]; exact hkl)]
-        have h0 := hi.nonneg k' hk'
-        simp only [view] at h0 hunsat
-        split
-        · rename_i h; subst h; omega
-        · exact h0
-      · have : (view s1).draws = ds := by rw [hv]
-        rw [this, hkeys, List.length_append, List.length_singleton, List.drop_add_one_eq_tail_drop, ← hdr, hds]
+      obtain ⟨s1, hs1, hc1, hkeys, hdraws, hk1⟩ := EraseCore_after hi.core hkey (List.mem_of_getElem? hget)
+      have hdraws' : (view s1).draws = ds := hdraws
+      refine ⟨s1, hs1, hc1, by rw [hk1]; exact hkind, ?_, ?_, ?_⟩
+      · rw [hdraws', hkeys, List.length_append, List.length_singleton, List.drop_add_one_eq_tail_drop,
+          ← hdr, hds]
         rfl
-      · have : (view s1).draws = ds := by rw [hv]
-        rw [this]
+      · rw [hdraws']
         rw [hds] at hbud
         simp only [List.length_cons] at hbud
         omega
